@@ -84,6 +84,78 @@ def error_exit_runs(bindir, r, n, viol, dist):
     return events
 
 
+LAUNDER_SH = r"""
+set -u
+cd "$1"
+work() { # name seconds tracefile
+cat > $1.do <<END
+echo "W $1 \$(date +%s.%N)" >> $PWD/$3
+sleep $2
+echo "X $1 \$(date +%s.%N)" >> $PWD/$3
+echo $1
+END
+}
+work X 2 trace.other; work Y 4 trace.other; for i in 1 2 3 4; do work W$i 8 trace; done
+cat > A.do <<END
+redo-ifchange X
+redo-ifchange Y
+echo "W A \$(date +%s.%N)" >> $PWD/trace
+sleep 3
+echo "X A \$(date +%s.%N)" >> $PWD/trace
+echo A
+END
+( timeout 60 redo --no-log -j2 X Y > out2.txt 2>&1 ) &      # another invocation holds the locks of X and Y
+sleep 0.5
+REDO_VERIF_TRACE="$1/toktrace" timeout 90 redo -j2 A W1 W2 W3 W4 > out1.txt 2>&1
+echo "rc=$?"
+wait
+"""
+
+
+def laundering_run(bindir):
+    """The shape of Tokens/Cheats.v `laundering` on the binaries (finding F50):
+    one `redo -j2` with log capture whose script A calls redo-ifchange twice, each
+    time on a target locked by another invocation.  Its token events are replayed
+    through the model like every other trace (they must be ACCEPTED: nothing is
+    created or lost), and both the model's J - L and the scripts' own work
+    sections are compared with -j + 1."""
+    import shutil
+    import subprocess
+    import tempfile
+    os.makedirs("/var/tmp/verif-scratch", exist_ok=True)
+    d = tempfile.mkdtemp(prefix="c08-launder-", dir="/var/tmp/verif-scratch")
+    try:
+        env = {k: v for k, v in os.environ.items() if not k.startswith("REDO") and k not in ("MAKEFLAGS", "MFLAGS")}
+        env["PATH"] = bindir + ":/usr/bin:/bin"
+        p = subprocess.run(["bash", "-c", LAUNDER_SH, "launder", d], env=env, stdout=subprocess.PIPE, stderr=subprocess.STDOUT, timeout=200)
+        out = {"rc_line": p.stdout.decode().strip()[-40:]}
+        tr = os.path.join(d, "toktrace")
+        if os.path.exists(tr):
+            q = subprocess.run([common.build_model(), "toktrace", tr], stdout=subprocess.PIPE, timeout=120)
+            out["model"] = q.stdout.decode().strip()
+            out["cheat_events"] = sum(1 for l in open(tr) if " cheat " in l)
+        else:
+            out["model"] = "EMPTY"
+        ev = []
+        if os.path.exists(os.path.join(d, "trace")):
+            for l in open(os.path.join(d, "trace")):
+                f = l.split()
+                if len(f) == 3:
+                    ev.append((float(f[2]), f[0], f[1]))
+        ev.sort()
+        cur, mx = set(), 0
+        for _, k, n in ev:
+            if k == "W":
+                cur.add(n)
+            else:
+                cur.discard(n)
+            mx = max(mx, len(cur))
+        out["max_simultaneous_work"] = mx
+        return out
+    finally:
+        shutil.rmtree(d, ignore_errors=True)
+
+
 def run(res):
     t = common.tier()
     r = common.rng("c08")
@@ -147,6 +219,22 @@ def run(res):
         if len(samples) < 4:
             samples.append(case)
     events += error_exit_runs(bindir, r, 8 if t == "quick" else 60, viol, dist)
+    # F50 through the model: the laundering trace must be accepted (conservation),
+    # and exceeds -j + 1 in the model's own J - L -- the witness of C08_one_extra_refuted
+    la = laundering_run(bindir)
+    dist["laundering"] = la
+    if la["model"].startswith("OK"):
+        events += int(la["model"].split("events=")[1].split()[0])
+        mjl = int(la["model"].split("maxJL=")[1].split()[0])
+        if mjl > 3 or la["max_simultaneous_work"] > 3:
+            kn, _ = common.known_findings()
+            hit = [k for k in kn if k["cls"] == "cheat_token_laundering" and k["property"] == "C08"]
+            if hit:
+                res.known("cheat_token_laundering", hit[0]["what"][:400])
+            else:
+                viol.append({"shape": "laundering", "what": "-j2: %d scripts at work (model J-L = %d), limit 2+1" % (la["max_simultaneous_work"], mjl), "detail": la})
+    elif la["model"] != "EMPTY":
+        viol.append({"shape": "laundering", "what": "token trace rejected by the model", "verdict": la["model"]})
     cov = dict(proof)
     cov.update({
         "trusted_base": ["Coq 8.16.1 kernel", "extraction (ExtrOcamlBasic only) + ocaml/driver.ml (trace validator)",
